@@ -142,8 +142,8 @@ Lemma difop_governs d s b :
   let rps := if rps0 =? 0 then 10 else rps0 in
   let fs := be16 b (d_off_difop_fov_start d) in let fe := be16 b (d_off_difop_fov_end d) in
   let range := (if fs <? fe then fe - fs else fe + 36000 - fs) mod 65536 in
-  s_rps s' = rps /\ s_blks_per_frame s' = blks_per_frame_of d rps /\
-  s_block_az_diff s' = (dy_round_half_away (dy_mul_r 53 (dy_of_Z (36000 * rps)) (d_block_duration d))) mod 65536 /\
+  s_rps s' = rps /\ s_blks_per_frame s' = blks_per_frame_bd (cur_bd d s) rps /\
+  s_block_az_diff s' = (dy_round_half_away (dy_mul_r 53 (dy_of_Z (36000 * rps)) (cur_bd d s))) mod 65536 /\
   s_blind_ns s' = (((36000 - range) mod 65536) * 1000000000) / (36000 * rps).
 Proof.
   unfold decode_difop_common, RS_ONE_ROUND. cbv zeta.
